@@ -40,6 +40,28 @@ def is_anyio_cancellation(exc: BaseException) -> bool:
     return False
 
 
+def handle_scope(handle: Any) -> Any:
+    """the cancel scope of a TaskHandle (it has no public accessor): the attribute holding a CancelScope"""
+    sc = getattr(handle, "_cancel_scope", None)
+    if isinstance(sc, CancelScope):
+        return sc
+    names = list(getattr(type(handle), "__slots__", ())) + list(getattr(handle, "__dict__", {}))
+    for n in names:
+        v = getattr(handle, n, None)
+        if isinstance(v, CancelScope):
+            return v
+    raise AttributeError("TaskHandle without a cancel scope attribute")
+
+
+def handle_exception(handle: Any) -> BaseException | None:
+    """what the task ended with, through the public API: `exception` returns it for a failed task and
+    raises TaskCancelled *from* it for a cancelled one"""
+    try:
+        return handle.exception
+    except BaseException as e:  # noqa: BLE001  (TaskCancelled)
+        return e.__cause__
+
+
 class Err(Exception):
     def __init__(self, n: int):
         super().__init__(n)
@@ -238,7 +260,7 @@ class KRun:
             st = h.status.name
             exc = None
             if st in ("FAILED", "CANCELLED"):
-                exc = evcode(h._exception)
+                exc = evcode(handle_exception(h))
             out[T] = (st, exc)
         return out
 
@@ -543,12 +565,12 @@ class KRun:
             self.nL -= 1
             return
         self.lines[i][1] = "ok"
-        self.scope_label[id(handle._cancel_scope)] = L
-        self.scope_objs[L] = handle._cancel_scope
+        self.scope_label[id(handle_scope(handle))] = L
+        self.scope_objs[L] = handle_scope(handle)
         self.handles[T] = handle
         self.keep.append(handle)
         self.task_by_name[name] = (T, handle)
-        self.scope_by_key["h:" + name] = (L, handle._cancel_scope)
+        self.scope_by_key["h:" + name] = (L, handle_scope(handle))
         self.hist("spawn", G, T, me, L)
 
     async def start_stmt(self, me: int, gkey: str, name: str) -> None:
@@ -601,7 +623,7 @@ class KRun:
         self.hist("start-end", G, T, me, "-")
         self.task_by_name[name] = (T, handle)
         self.handles[T] = handle
-        self.scope_by_key["h:" + name] = (self.scope_label[id(handle._cancel_scope)], handle._cancel_scope)
+        self.scope_by_key["h:" + name] = (self.scope_label[id(handle_scope(handle))], handle_scope(handle))
         self.keep.append(handle)
         self.q_cancelling(me)
 
